@@ -11,6 +11,7 @@ Generic helpers at the top (`val`, `pat_alts`, `match_rows`, `lin`) are shared w
 import itertools
 import json
 import os
+import re
 
 from engine import RuleSet
 from hir import strip, pat_str, macro_body_tokens
@@ -1426,13 +1427,16 @@ def r2_4(rep):
     # saw_field_with_layout: padding is added to the offset before the field, and is what the padding blob is made of
     b = ms.get("saw_field_with_layout")
     if b is not None:
-        adds = [n for n in _assigns(b, "latest_offset") if n["k"] == "AssignOp" and n["op"] == "+=" and strip(n["r"]).get("name") == "padding_bytes"]
+        # the gap local: the one bare local that is added to latest_offset (identified by that role, whatever it is called)
+        bare = [n for n in _assigns(b, "latest_offset") if n["k"] == "AssignOp" and n["op"] == "+=" and strip(n["r"]).get("k") == "Local"]
+        PAD = strip(bare[0]["r"])["name"] if bare else "padding_bytes"
+        adds = [n for n in _assigns(b, "latest_offset") if n["k"] == "AssignOp" and n["op"] == "+=" and strip(n["r"]).get("name") == PAD]
         rep.check(len(adds) == 1 and not b.guards(adds[0]), "field:padding-added-once", "`latest_offset += padding_bytes` happens once, unconditionally", b.loc(b.root))
         news = [c for c in b.calls(lambda n: n["k"] == "Call" and (n.get("callee") or "").endswith("Layout::new"))]
-        rep.check(bool(news) and all(strip(c["args"][0]).get("name") == "padding_bytes" for c in news), "field:padding-blob-size",
+        rep.check(bool(news) and all(strip(c["args"][0]).get("name") == PAD for c in news), "field:padding-blob-size",
                   "the explicit padding field is exactly padding_bytes long", b.loc(b.root))
         # explicit clang offset: padding = offset/8 - latest_offset, only when the field lies beyond the current offset
-        pads = [n for n in b.walk() if n["k"] == "Let" and n["pat"].get("name") == "padding_bytes"]
+        pads = [n for n in b.walk() if n["k"] == "Let" and n["pat"].get("name") == PAD]
         if rep.check(len(pads) == 1, "field:padding-def", "one definition of padding_bytes", b.loc(b.root)):
             m = strip(pads[0]["init"])
             okx = False
@@ -1450,11 +1454,11 @@ def r2_4(rep):
         # a gap is materialised as an explicit padding field whenever it is at least as large as the FIELD's own alignment
         # (a smaller gap is what repr(C) inserts by itself); comparing with anything larger drops needed padding
         geqs = [n for n in b.walk() if n["k"] == "Binary" and n["op"] in (">=", "<=") and
-                ("padding_bytes" in b.canon(n["l"], 2) + b.canon(n["r"], 2)) and "Layout::align" in b.canon(n, 8)]
+                PAD in (strip(n["l"]).get("name"), strip(n["r"]).get("name")) and "Layout::align" in b.canon(n, 8)]
         if rep.check(len(geqs) == 1, "field:need-padding-test", "one comparison of the gap with an alignment (found %d)" % len(geqs), b.loc(b.root)):
             g = geqs[0]
             gap, al_ = (g["l"], g["r"]) if g["op"] == ">=" else (g["r"], g["l"])
-            rep.check(strip(gap).get("name") == "padding_bytes" and b.canon(al_, 6) == "param:field_layout.ir::layout::Layout::align", "field:need-padding-vs-own-align",
+            rep.check(strip(gap).get("name") == PAD and re.fullmatch(r"param:\w+\.ir::layout::Layout::align", b.canon(al_, 6)) is not None, "field:need-padding-vs-own-align",
                       "padding is needed when gap >= the field's own alignment (found `%s >= %s`)" % (b.canon(gap, 3)[:40], b.canon(al_, 6)[:80]), b.loc(g))
     # pad_struct / add_tail_padding
     for name, szname in (("pad_struct", "layout"), ("add_tail_padding", "comp_layout")):
